@@ -769,10 +769,12 @@ func StaleContextAfterReconnect(d *fw.Driver, res *fw.Result, seed int64) error 
 	defer e.Close()
 	ctx, cancelAll := context.WithCancel(context.Background())
 	defer cancelAll()
-	cl, closer, err := e.Client(ctx, jsonrpc.WithPingInterval(0), jsonrpc.WithTimeout(0), jsonrpc.WithReconnectBackoff(3*time.Millisecond, 15*time.Millisecond))
+	cl, closer0, err := e.Client(ctx, jsonrpc.WithPingInterval(0), jsonrpc.WithTimeout(0), jsonrpc.WithReconnectBackoff(3*time.Millisecond, 15*time.Millisecond))
 	if err != nil {
 		return err
 	}
+	var closeOnce sync.Once
+	closer := func() { closeOnce.Do(closer0) }
 	defer scen.WithTimeout(3*time.Second, closer)
 	sig := "stale subscription context cancelled after a reconnect"
 	var wg sync.WaitGroup
@@ -822,6 +824,49 @@ func StaleContextAfterReconnect(d *fw.Driver, res *fw.Result, seed int64) error 
 	if len(b.Got) != 40 {
 		res.Add(fw.Finding{Kind: "monitor", Signature: sig + " values lost", Detail: fmt.Sprintf("subscription B received %d of the 40 values its handler sent on a healthy connection", len(b.Got)),
 			Case: map[string]interface{}{"scenario": "stale-context-after-reconnect"}})
+	}
+	// a second loss: a subscription opened on the re-established connection must be closed by it too
+	heal := func() bool {
+		for w := 0; w < 500; w++ {
+			done := make(chan bool, 1)
+			go func() { v, err := cl.Add(20, 22); done <- err == nil && v == 42 }()
+			select {
+			case ok := <-done:
+				if ok {
+					return true
+				}
+			case <-time.After(time.Second):
+			}
+			time.Sleep(5 * time.Millisecond)
+		}
+		return false
+	}
+	c3 := &Sub{Tok: 970003, N: -1, Mode: "fast"}
+	c3.Ctx, c3.Cancel = context.WithCancel(ctx)
+	c3.Start(e, cl, &wg)
+	for w := 0; w < 3000 && len(c3.Got) < 3 && !c3.Returned; w++ {
+		time.Sleep(time.Millisecond)
+	}
+	time.Sleep(3 * time.Millisecond)
+	e.PX.Cut(0, "rst")
+	select {
+	case <-c3.Done:
+	case <-time.After(5 * time.Second):
+		res.Add(fw.Finding{Kind: "monitor", Signature: sig + " second loss does not close", Detail: "a subscription opened after a reconnect was not closed when the connection broke again", Case: map[string]interface{}{"scenario": "second-loss"}})
+	}
+	if heal() {
+		d4 := &Sub{Tok: 970004, N: -1, Mode: "fast"}
+		d4.Ctx, d4.Cancel = context.WithCancel(ctx)
+		d4.Start(e, cl, &wg)
+		for w := 0; w < 3000 && len(d4.Got) < 3 && !d4.Returned; w++ {
+			time.Sleep(time.Millisecond)
+		}
+		scen.WithTimeout(5*time.Second, closer)
+		select {
+		case <-d4.Done:
+		case <-time.After(3 * time.Second):
+			res.Add(fw.Finding{Kind: "monitor", Signature: sig + " close after reconnects does not close", Detail: "a subscription opened after two reconnects was still open 3s after the client was closed", Case: map[string]interface{}{"scenario": "close-after-reconnects"}})
+		}
 	}
 	res.Count("stale-context-after-reconnect")
 	res.Eval(true, []interface{}{"stale-context-after-reconnect"})
@@ -907,5 +952,42 @@ func Independence(res *fw.Result, seed int64) error {
 	}
 	res.Count("independence")
 	res.Eval(true, []interface{}{"independence"})
+	return nil
+}
+
+// SilentLossNoPings: keepalive switched off (ping interval 0) with a timeout configured; the connection dies
+// without FIN or RST under a live subscription.  The read deadline is then the only detector: the
+// subscription's channel must be closed within a bounded time.
+func SilentLossNoPings(res *fw.Result, seed int64) error {
+	e, err := scen.NewEnv(seed+93, 0, jsonrpc.WithServerPingInterval(0))
+	if err != nil {
+		return err
+	}
+	defer e.Close()
+	ctx, cancel := context.WithCancel(context.Background())
+	defer cancel()
+	const T = 150 * time.Millisecond
+	cl, closer, err := e.Client(ctx, jsonrpc.WithPingInterval(0), jsonrpc.WithTimeout(T), jsonrpc.WithReconnectBackoff(5*time.Millisecond, 20*time.Millisecond))
+	if err != nil {
+		return err
+	}
+	defer scen.WithTimeout(3*time.Second, closer)
+	var wg sync.WaitGroup
+	s := &Sub{Tok: 975001, N: -1, Mode: "fast"}
+	s.Ctx, s.Cancel = context.WithCancel(ctx)
+	s.Start(e, cl, &wg)
+	for w := 0; w < 3000 && e.RT.Count("c.recv") < 3; w++ {
+		time.Sleep(time.Millisecond)
+	}
+	e.PX.Cut(0, "blackhole")
+	select {
+	case <-s.Done:
+	case <-time.After(5*T + time.Second):
+		res.Add(fw.Finding{Kind: "monitor", Signature: "silent loss with keepalive off: channel never closed", Detail: fmt.Sprintf("a subscription's channel was still open %v after its connection went silent (ping interval 0, timeout %v)", 5*T+time.Second, T),
+			Case: map[string]interface{}{"scenario": "silent-loss-no-pings"}})
+	}
+	s.Cancel()
+	res.Count("silent-loss-no-pings")
+	res.Eval(true, []interface{}{"silent-loss-no-pings"})
 	return nil
 }
